@@ -337,6 +337,7 @@ func genC13db(r *rng, tier string, res *Result) {
 
 func genC13(r *rng, tier string, res *Result) {
 	genC13db(r, tier, res)
+	genC13real(r, tier, res)
 	tmp, err := os.MkdirTemp("", "pgh-c13-")
 	if err != nil {
 		panic(err)
